@@ -130,6 +130,32 @@ func checkSpec(ctx *Ctx, id string) {
 				}
 			}
 		}
+		// two markers in a row with the numbers 0 / absent / 1 on each (rc0-b vs rc-b vs rc.0-b):
+		// zero and absent numbers are where "insignificant zero" shortcuts go wrong
+		if sh := numShapes[name]; sh != nil {
+			tpls := append(append([]string{}, sh.Pre...), sh.Post...)
+			inst := func(tpl, k string) string {
+				if k == "" {
+					tpl = strings.ReplaceAll(strings.ReplaceAll(tpl, ".%k", ""), ".%K", "")
+				}
+				return strings.ReplaceAll(strings.ReplaceAll(tpl, "%k", k), "%K", k)
+			}
+			for f := 0; f < 3 && len(tpls) > 0; f++ {
+				ar := sh.Arities[r.Intn(len(sh.Arities))]
+				parts := make([]string, ar)
+				for i := range parts {
+					parts[i] = r.Pick([]string{"1", "2", "0"})
+				}
+				base := sh.Prefix + strings.Join(parts, ".")
+				a, b := tpls[r.Intn(len(tpls))], tpls[r.Intn(len(tpls))]
+				for _, ka := range []string{"0", "", "1"} {
+					for _, kb := range []string{"0", "", "1"} {
+						extra = append([]string{base + inst(a, ka) + inst(b, kb)}, extra...)
+					}
+					extra = append([]string{base + inst(a, ka)}, extra...)
+				}
+			}
+		}
 		// word-boundary family: one base, one position, the numbers 2^k-1, 2^k, 2^k+1 for a
 		// seed-dependent half of the usual widths (8..64 bits): a single mishandled value meets
 		// its two neighbours and small numbers at the same position
